@@ -27,6 +27,7 @@
 
 import re
 import typing
+from decimal import Decimal
 from fractions import Fraction
 import ttconv.style_properties as styles
 
@@ -40,6 +41,12 @@ _OFFSET_MS_RE = re.compile(r"^(\d+(?:\.\d+)?)ms\Z", re.ASCII)
 _OFFSET_S_RE = re.compile(r"^(\d+(?:\.\d+)?)s\Z", re.ASCII)
 _OFFSET_H_RE = re.compile(r"^(\d+(?:\.\d+)?)h\Z", re.ASCII)
 _OFFSET_M_RE = re.compile(r"^(\d+(?:\.\d+)?)m\Z", re.ASCII)
+
+
+def to_ttml_number(value) -> str:
+  '''Serializes the number `value` with 6 significant digits and without exponent, which TTML does not allow'''
+
+  return f"{Decimal(f'{value:g}'):f}"
 
 
 def parse_length(attr_value: str) -> typing.Tuple[float, str]:
